@@ -11,6 +11,9 @@
      input : 2 :: nc :: fs_m :: fs_k :: has_user_psd :: up_m :: up_k :: lo_m :: lo_k :: hi_m :: hi_k ::
              xcor_hf[nc triples] ++ xcor_lf[nc triples] ++ psd_hf[nc triples]   (triple = tag, m, k; tag 0 = NaN)
      output: nc labels
+   op 4  detect_bad_channels.detrend(x, 11)
+     input : 4 :: n :: x[n] (integers)
+     output: n integers  floor(value * 2^32)
    op 3  detect_bad_channels_cbin, mode
      input : 3 :: nc :: nb :: labels (nb batches of nc)
      output: nc labels *)
@@ -110,6 +113,7 @@ Definition run (inp : list Z) : list Z :=
   match inp with
   | 1 :: nc :: ns :: kd :: rest => run_interp nc ns kd rest
   | 2 :: nc :: rest => run_rule nc rest
+  | 4 :: n :: rest => map enc_val (detrend11 QcOps (map (fun z => dyadic z 0) (firstn (Z.to_nat n) rest)))
   | 3 :: nc :: nb :: rest => cbin_labels (Z.to_nat nc) (chunks (Z.to_nat nb) (Z.to_nat nc) rest)
   | _ => [-999]
   end.
